@@ -1,4 +1,4 @@
-import OFCore.Lemmas.HeapRun
+import OFCore.Lemmas.HeapFamily
 /-!
 # C13 — a cloned simulation and its original never affect each other
 
@@ -267,5 +267,48 @@ theorem C13_disk_shared_counterexample :
     ∧ ∃ q, q ∈ reach exDiskH' 3 [exC] ∧ q ∈ reach exDiskH' 3 [exS] :=
   ⟨WellFormed.ofB (by decide +kernel), by decide +kernel, by decide +kernel, by decide +kernel, by decide +kernel,
     ⟨⟨0, 6⟩, by decide +kernel, by decide +kernel⟩⟩
+
+/-- Any number of simulations that only reach their own objects (a simulation, its clones, clones of clones…, in
+pairwise distinct closed regions): for EVERY sequence of calls on any of them, what is observable from each
+one and what its calls returned are what they are when that simulation's own calls are run alone.  No
+restriction here beyond closedness: a clone of a disk-backed simulation is *not* closed (it refers to the
+original's storage objects), which is where the `_partial` theorems above stop. -/
+theorem C13_family_noninterference (sys : Sys) (fuel : Nat) (h : Heap) (sims : List Id)
+    (hd : sims.Pairwise (fun a b => a.reg ≠ b.reg)) (hc : ∀ y ∈ sims, Closed y.reg h)
+    (calls : List (Nat × Op)) (j : Nat) (x : Id) (hj : sims[j]? = some x) :
+    (observe x (runCalls sys fuel sims calls h)).1 = (observe x (runSide sys fuel x (calls.filterMap (callsOf j)) h)).1
+    ∧ resultsCalls sys fuel sims j calls h = resultsSide sys fuel x (calls.filterMap (callsOf j)) h := by
+  have f := family_agree sys fuel sims hd j x hj calls h h hc rfl
+  exact ⟨(observe_region (x := x) rfl f.2.1 f.1).symm, f.2.2⟩
+
+/-- Chains.  `Separate h sims`: the live simulations are in pairwise distinct regions, each closed and *tidy*
+(no memory configuration, no temporary directory, `persons` listed, the person population without `members`
+and bound to its simulation, no holder with an on-disk storage).  Whatever the history from there — calls on
+any live simulation (including calls that raise, spirals, purges, holders made on first use), clones of the
+original, of a clone, of a clone's clone, at any moment — the live simulations remain such a family, the
+earlier ones keep their rank, and each of them is `WellFormed` and `MemoryBacked`: every theorem above applies
+to the next `clone()` of any of them, and `C13_family_noninterference` to whatever calls follow. -/
+theorem C13_histories_keep_simulations_separate (sys : Sys) (fuel : Nat) (h : Heap) (sims : List Id)
+    (hs : Separate h sims) (evs : List Ev) :
+    Separate (runEvs sys fuel evs (h, sims)).1 (runEvs sys fuel evs (h, sims)).2
+    ∧ (∃ more, (runEvs sys fuel evs (h, sims)).2 = sims ++ more)
+    ∧ ∀ x ∈ (runEvs sys fuel evs (h, sims)).2,
+        WellFormed (runEvs sys fuel evs (h, sims)).1 x ∧ MemoryBacked (runEvs sys fuel evs (h, sims)).1 x := by
+  obtain ⟨sp, pre⟩ := history_separate sys fuel evs h sims hs
+  exact ⟨sp, pre, fun x hx => Tidy.wellFormed (sp.ok x hx).2.1 (sp.ok x hx).2.2⟩
+
+/-- the example's original is such a family on its own -/
+example : Separate exH [exS] := Separate.single (by decide +kernel) (by decide +kernel) (by decide +kernel)
+
+-- a clone, a clone of the clone, calls on all three (one raises), a clone of the clone's clone after them:
+-- four simulations, the last one holding what its parent computed (a role-filtered sum) and nothing of the others
+example :
+    let st := runEvs exSys 40 [.clone 0 false false, .clone 1 true false, .call 2 (.setInput 0 exM1 [7, 7, 7]),
+      .call 0 (.calculate 9 exM1), .call 2 (.calculate 4 exM1), .call 1 (.deleteArrays 0 none), .clone 2 false true]
+      (exH, [exS])
+    st.2.length = 4 ∧ (st.2.map (fun x => x.reg)) = [0, 1, 2, 3]
+    ∧ (readValue exSys ⟨3, 0⟩ 4 exM1 st.1).1 = .ok (some [7, 10])
+    ∧ (readValue exSys ⟨1, 0⟩ 0 exM1 st.1).1 = .ok none
+    ∧ (readValue exSys ⟨0, 0⟩ 0 exM1 st.1).1 = .ok (some [1, 2, 3]) := by decide +kernel
 
 end OFCore
